@@ -111,6 +111,7 @@ def gen_cfg(rng, prop, tier):
         "menu": list(menu),
         "classes": classes,
         "targets": targets,
+        "init_parents": gen_init_forest(rng, n_nodes),
         "L": length,
         "obs": 1,
         "observe_hooks": False,
@@ -161,6 +162,29 @@ def gen_cfg(rng, prop, tier):
         nodes = None if rng.random() < 0.4 else sorted(rng.sample(range(n_nodes), rng.randint(1, n_nodes)))
         cfg["persist_spec"] = [[rng.choice(hooks), nodes, rng.choice(cfg["excs"])]]
     return cfg
+
+
+def gen_init_forest(rng, n):
+    """Initial shape of the universe: histories start from isolated roots in 40%
+    of the runs and from a forest of a drawn style otherwise (deep chains, stars,
+    binary trees, random forests), so that depth >= 3 states are common even in
+    short histories."""
+    style = wchoice(rng, (("flat", 40), ("random", 30), ("chain", 10), ("star", 5), ("binary", 10), ("two-chains", 5)))
+    par = [None] * n
+    if style == "flat":
+        return par
+    for i in range(1, n):
+        if style == "random":
+            par[i] = rng.randrange(i) if rng.random() < 0.8 else None
+        elif style == "chain":
+            par[i] = i - 1 if rng.random() < 0.9 else None
+        elif style == "star":
+            par[i] = 0
+        elif style == "binary":
+            par[i] = (i - 1) // 2
+        else:
+            par[i] = i - 2 if i >= 2 else None
+    return par
 
 
 # -- operation generation ---------------------------------------------------------------
@@ -553,6 +577,11 @@ def build_world(cfg, world=None):
         t = cfg["targets"][i]
         world.new(world.class_for(cls), "n%d" % i, target=None if t is None else world.nodes[t])
         model.add(FAMILY[cls])
+    for i, p in enumerate(cfg.get("init_parents") or ()):
+        if p is not None:
+            # plain parent assignments, outside any operation (hooks are not routed)
+            world.nodes[i].parent = world.nodes[p]
+            model.apply_parent(i, p)
     return world, model
 
 
@@ -817,7 +846,7 @@ def c03_judge(res, step, op, exp, pre, post, fired, excname):
 def brief_cfg(cfg):
     return {
         k: cfg[k]
-        for k in ("family", "classes", "targets", "profile", "obs", "observe_hooks", "assert", "L")
+        for k in ("family", "classes", "targets", "init_parents", "profile", "obs", "observe_hooks", "assert", "L")
         if k in cfg
     }
 
@@ -920,6 +949,10 @@ def simplify_cfg(cfg, ops):
     for t in cfg["targets"]:
         if t is not None:
             used.add(t)
+    ip = cfg.get("init_parents") or [None] * n0
+    for t in ip:
+        if t is not None:
+            used.add(t)
     for ent in cfg.get("persist_spec", ()) or ():
         if ent[1]:
             used.update(ent[1])
@@ -931,6 +964,7 @@ def simplify_cfg(cfg, ops):
         c2 = dict(cfg)
         c2["classes"] = cfg["classes"][:i] + cfg["classes"][i + 1:]
         c2["targets"] = [None if t is None else mp[t] for t in (cfg["targets"][:i] + cfg["targets"][i + 1:])]
+        c2["init_parents"] = [None if t is None else mp[t] for t in (ip[:i] + ip[i + 1:])]
         if cfg.get("persist_spec"):
             c2["persist_spec"] = [[e[0], None if e[1] is None else [mp[x] for x in e[1]], e[2]] for e in cfg["persist_spec"]]
         o2 = []
@@ -946,6 +980,9 @@ def simplify_cfg(cfg, ops):
                 op2["f"] = dict(f, persist=[[e[0], None if e[1] is None else [mp[x] for x in e[1]], e[2]] for e in f["persist"]])
             o2.append(op2)
         yield c2, o2
+    for i, t in enumerate(ip):
+        if t is not None:
+            yield dict(cfg, init_parents=ip[:i] + [None] + ip[i + 1:]), ops
     simplest = "HLight" if cfg["family"] == "light" else "HNode"
     for i, c in enumerate(cfg["classes"]):
         if c != simplest and c not in LINK_CLASSES and cfg["prop"] not in ("C18",):
